@@ -418,7 +418,8 @@ class Model:
             if now[0] != backup[0] or now[1] != backup[1]:
                 self.queue = []
                 ids = [r[2] for r in pending]; evs = []
-                while pos < len(guards) and guards[pos]['pend'] == ids: evs.append(guards[pos]); pos += 1
+                full = [(r[2], r[0], r[1], r[3]) for r in pending]
+                while pos < len(guards) and (guards[pos]['full'] == full if 'full' in guards[pos] else guards[pos]['pend'] == ids): evs.append(guards[pos]); pos += 1
                 if not evs: self.notes.append('round-without-guards')   # nothing to leave or enter: approved silently
                 for e in evs:
                     for q in e['issue']: self.enqueue(q)
